@@ -1729,3 +1729,189 @@ Proof.
     exact H.
   - apply frame_cmdq_empty.
 Qed.
+
+(* ================================================================================================ *)
+(* 6. Non-vacuity, known findings                                                                    *)
+(* ================================================================================================ *)
+
+Lemma during_prefixes pr o (P : peer_state -> Prop) ord :
+  p_order pr = ord ->
+  Forall (fun i => P (frame_at pr o (take i ord))) (seq 0 (S (length ord))) -> during pr o P.
+Proof.
+  intros Ho H l1 l2 Hl. rewrite Ho in Hl. rewrite Forall_forall in H.
+  specialize (H (length l1)). rewrite Hl, take_app in H. apply H.
+  apply elem_of_seq. rewrite app_length. lia.
+Qed.
+
+Ltac during_compute ord :=
+  apply (during_prefixes _ _ _ ord); [vm_compute; reflexivity|];
+  unfold ord; cbn [length seq];
+  repeat (apply Forall_cons_2; [vm_compute; reflexivity|]); apply Forall_nil_2.
+
+Definition demo_order : list sysid :=
+  [SFixVisibility; SSrvConnected; SSrvDisconnected; SCliRemoved; SCliCreated; SSrvRemoved; SSrvCreated;
+   SSrvClientConnected; SSync; SSrvParented; SCliParented; SSrvPoll; SCliPoll; SCliConnecting; SCliVerify;
+   SCliDisconnected; SSrvReact; SCliReact; SDetect 0; SSrvPromote].
+
+Lemma demo_order_ok : order_has_state_systems demo_order /\ order_keys_ok demo_order.
+Proof.
+  split.
+  - unfold order_has_state_systems, demo_order. repeat split.
+    + exists [SFixVisibility], [SSrvDisconnected; SCliRemoved; SCliCreated; SSrvRemoved; SSrvCreated;
+        SSrvClientConnected; SSync; SSrvParented; SCliParented; SSrvPoll; SCliPoll; SCliConnecting; SCliVerify;
+        SCliDisconnected; SSrvReact; SCliReact; SDetect 0; SSrvPromote]. once_tac.
+    + exists [SFixVisibility; SSrvConnected], [SCliRemoved; SCliCreated; SSrvRemoved; SSrvCreated;
+        SSrvClientConnected; SSync; SSrvParented; SCliParented; SSrvPoll; SCliPoll; SCliConnecting; SCliVerify;
+        SCliDisconnected; SSrvReact; SCliReact; SDetect 0; SSrvPromote]. once_tac.
+    + exists [SFixVisibility; SSrvConnected; SSrvDisconnected; SCliRemoved; SCliCreated; SSrvRemoved; SSrvCreated;
+        SSrvClientConnected; SSync; SSrvParented; SCliParented; SSrvPoll; SCliPoll],
+        [SCliVerify; SCliDisconnected; SSrvReact; SCliReact; SDetect 0; SSrvPromote]. once_tac.
+    + exists [SFixVisibility; SSrvConnected; SSrvDisconnected; SCliRemoved; SCliCreated; SSrvRemoved; SSrvCreated;
+        SSrvClientConnected; SSync; SSrvParented; SCliParented; SSrvPoll; SCliPoll; SCliConnecting],
+        [SCliDisconnected; SSrvReact; SCliReact; SDetect 0; SSrvPromote]. once_tac.
+    + exists [SFixVisibility; SSrvConnected; SSrvDisconnected; SCliRemoved; SCliCreated; SSrvRemoved; SSrvCreated;
+        SSrvClientConnected; SSync; SSrvParented; SCliParented; SSrvPoll; SCliPoll; SCliConnecting; SCliVerify],
+        [SSrvReact; SCliReact; SDetect 0; SSrvPromote]. once_tac.
+  - intros s H. unfold demo_order in H.
+    repeat (apply elem_of_cons in H as [->|H]; [cbn; discriminate|]). inversion H.
+Qed.
+
+Definition o_status (r : renet_status) : frame_oracle :=
+  {| fo_conn_events := []; fo_clients := []; fo_status := Some r; fo_srv_poll := []; fo_cli_poll := 0;
+     fo_downloads := [] |}.
+
+(* a client of host 0: plugin added, two frames while renet is still connecting, renet reports
+   Connected, one more frame *)
+Definition join_trace : list (app_op + frame_oracle) :=
+  [inl (OSetup false 0); inr o_idle; inr (o_status RConnecting); inr (o_status RConnected); inr (o_status RConnected)].
+Definition demo_client : peer_state := prun (init_peer 1 [0] [0] demo_order) join_trace.
+
+(* Disconnected -> Connecting -> Connected over four frames, then the transport is removed and
+   the state is Disconnected two frames later *)
+Example client_lifecycle :
+  let p0 := init_peer 1 [0] [0] demo_order in
+  (fun n => s_client (prun p0 (take n (join_trace ++ [inl ORemoveTransports; inr o_idle; inr o_idle]))))
+    <$> seq 0 9
+  = [CliDisconnected; CliDisconnected; CliDisconnected; CliConnecting; CliConnecting; CliConnected;
+     CliConnected; CliConnected; CliDisconnected].
+Proof. vm_compute. reflexivity. Qed.
+
+(* the hypotheses of client_removal_noticed / client_back_to_disconnected_within_two_frames hold there *)
+Example client_removal_hypotheses :
+  s_client demo_client = CliConnected /\ bit demo_client 25 = true /\ n_setup demo_client = true
+  /\ p_panic (frame (app_step demo_client ORemoveTransports) o_idle) = None
+  /\ during (app_step demo_client ORemoveTransports) o_idle (fun m => n_cli_transport m = None).
+Proof.
+  split; [vm_compute; reflexivity|]. split; [vm_compute; reflexivity|]. split; [vm_compute; reflexivity|].
+  split; [vm_compute; reflexivity|]. during_compute demo_order.
+Qed.
+
+(* the witness of connected_only_after_transport_connected in the third frame *)
+Example connected_witness :
+  let pr := prun (init_peer 1 [0] [0] demo_order) (take 3 join_trace) in
+  s_client (frame pr (o_status RConnected)) = CliConnecting
+  /\ s_client (frame (frame pr (o_status RConnected)) (o_status RConnected)) = CliConnected
+  /\ n_status (frame_at pr (o_status RConnected) (take 14 demo_order)) = RConnected.
+Proof. vm_compute. repeat split. Qed.
+
+(* a host: plugin added, Connected (and its own InitialSyncFinished) two frames later; transport
+   removed, Disconnected two frames later *)
+Example server_lifecycle :
+  let p0 := init_peer 0 [0] [0] demo_order in
+  let tr := [inl (OSetup true 0); inr o_idle; inr o_idle; inl ORemoveTransports; inr o_idle; inr o_idle] in
+  (fun n => (s_server (prun p0 (take n tr)), p_finished_events (prun p0 (take n tr)))) <$> seq 0 7
+  = [(SrvDisconnected, 0); (SrvDisconnected, 0); (SrvDisconnected, 1); (SrvConnected, 1);
+     (SrvConnected, 1); (SrvConnected, 1); (SrvDisconnected, 1)].
+Proof. vm_compute. reflexivity. Qed.
+
+Example hosting_hypotheses :
+  let pr := init_peer 0 [0] [0] demo_order in
+  let pr0 := app_step pr (OSetup true 0) in
+  p_panic (frame pr0 o_idle) = None
+  /\ during pr0 o_idle (fun m => n_srv_transport m = Some (p_tick pr)).
+Proof. cbv zeta. split; [vm_compute; reflexivity|]. during_compute demo_order. Qed.
+
+Example hosting_end_hypotheses :
+  let pr := prun (init_peer 0 [0] [0] demo_order) [inl (OSetup true 0); inr o_idle; inr o_idle] in
+  let pr0 := app_step pr ORemoveTransports in
+  s_server pr = SrvConnected /\ bit pr 11 = true /\ p_panic (frame pr0 o_idle) = None
+  /\ during pr0 o_idle (fun m => n_srv_transport m = None).
+Proof.
+  cbv zeta. split; [vm_compute; reflexivity|]. split; [vm_compute; reflexivity|].
+  split; [vm_compute; reflexivity|]. during_compute demo_order.
+Qed.
+
+(* the joined client receives [Spawn 7; Parented-free snapshot...; FinishedInitialSync] and polls
+   both in one frame: one event, the entity exists at the end of the frame, nothing pending *)
+Definition with_inbox (pr : peer_state) (h : peer) (ms : list msg) : peer_state :=
+  pr <| n_inbox := <[h := ms]> (n_inbox pr) |>.
+Definition o_poll (n : nat) : frame_oracle :=
+  {| fo_conn_events := []; fo_clients := []; fo_status := None; fo_srv_poll := []; fo_cli_poll := n;
+     fo_downloads := [] |}.
+
+Example finished_after_snapshot :
+  let pr := with_inbox demo_client 0 [MSpawn 7; MComp 7 0 (VN 5); MFinInit; MSpawn 8] in
+  let pr' := frame pr (o_poll 3) in
+  p_finished_events pr' = p_finished_events pr + 1
+  /\ inbox pr' 0 = [MSpawn 8]
+  /\ map_to_list (p_cmdq pr') = [] /\ p_panic pr' = None
+  /\ (fun x => (en_sync x.2, (fun c => c_val c) <$> (en_comps x.2 !! 0))) <$> map_to_list (p_ents pr')
+     = [(Some 7, Some (VN 5))].
+Proof. vm_compute. repeat split. Qed.
+
+(* S8 (known finding): NewHost makes the client call RenetClient::disconnect() (sticky) and swap
+   the transports inside one flush: resource_removed never sees the transport absent, the new
+   transport never connects, ClientState stays Connected while renet reports Disconnected. *)
+Definition connected_implies_renet_connected_statement : Prop :=
+  forall pr o, p_panic pr = None -> next_client_legal pr ->
+    s_client (frame pr o) = CliConnected -> n_status (frame pr o) = RConnected.
+
+Example S8_connected_while_renet_disconnected :
+  let pr := with_inbox demo_client 0 [MNewHost 2] in
+  let pr1 := frame pr (o_poll 1) in
+  let pr4 := prun pr1 [inr o_idle; inr (o_status RDisconnected); inr (o_status RDisconnected)] in
+  s_client pr = CliConnected /\ n_status pr = RConnected
+  /\ s_client pr1 = CliConnected /\ n_status pr1 = RDisconnected /\ (fst <$> n_cli_transport pr1) = Some 2
+  /\ s_client pr4 = CliConnected /\ n_status pr4 = RDisconnected /\ s_next_client pr4 = None.
+Proof. vm_compute. repeat split. Qed.
+
+Theorem connected_implies_renet_connected_refuted : ~ connected_implies_renet_connected_statement.
+Proof.
+  intros H. specialize (H (with_inbox demo_client 0 [MNewHost 2]) (o_poll 1)).
+  assert (n_status (frame (with_inbox demo_client 0 [MNewHost 2]) (o_poll 1)) = RConnected) as E.
+  { apply H; vm_compute; auto. }
+  vm_compute in E. discriminate E.
+Qed.
+
+(* the published state trusts renet's status alone: whatever else is true of the peer (e.g. the
+   transport points to an old host whose server is gone), Connecting + status Connected gives
+   Connected in the next frame *)
+Example connected_trusts_renet_status :
+  let pr := prun (init_peer 1 [0] [0] demo_order) [inl (OSetup false 99); inr o_idle; inr o_idle] in
+  s_client pr = CliConnecting
+  /\ s_client (prun pr [inr (o_status RConnected); inr o_idle]) = CliConnected.
+Proof. vm_compute. repeat split. Qed.
+
+(* a closed gate: the host's chain on a client, and vice versa *)
+Example gate_closed :
+  server_gate demo_client = false /\ client_gate demo_client = true
+  /\ run_system demo_client SSrvPoll o_idle = demo_client.
+Proof. vm_compute. repeat split. Qed.
+
+Print Assumptions client_state_path.
+Print Assumptions connected_only_after_transport_connected.
+Print Assumptions client_back_to_disconnected_within_two_frames.
+Print Assumptions client_removal_noticed.
+Print Assumptions server_state_tracks_hosting.
+Print Assumptions hosting_published.
+Print Assumptions hosting_end_published.
+Print Assumptions existed_bit_invariant_refuted.
+Print Assumptions existed_bit_invariant_partial.
+Print Assumptions acts_only_when_connected.
+Print Assumptions finished_event_sources.
+Print Assumptions finished_event_once_per_join.
+Print Assumptions send_initial_sync_batch.
+Print Assumptions deliver_out_inbox.
+Print Assumptions frame_cmdq_empty.
+Print Assumptions finished_implies_snapshot_applied.
+Print Assumptions connected_implies_renet_connected_refuted.
